@@ -314,6 +314,14 @@ def cov_xml(cl, oidx, fr):
     n = C.shape[0]
     if cl.kind in ("obs", "hdiff") and oidx is not None and list(oidx) != list(range(n)):
         C = C[np.ix_(oidx, oidx)]
+        nzb = [abs(i - j) for i in range(n) for j in range(n) if C[i, j] != 0.0]
+        band = max(nzb) if nzb else 0      # a permuted band matrix generally has a wider band
+    if cl.kind == "obs" and fr.angles == "right-handed":
+        # horizontal angular values are written as 400 - v: their covariances with non-flipped observations
+        # (distances, zenith angles) change sign
+        sg = np.array([-1.0 if o.kind in ("direction", "angle", "azimuth") else 1.0
+                       for o in (cl.obs[i] for i in (oidx or range(n)))])
+        C = C * np.outer(sg, sg)
     if cl.kind == "obs" and fr.degrees:
         # angular rows/cols are in cc^2 -> arcsec^2 when values are written in degrees
         sc = np.array([0.324 if o.kind in ANGULAR else 1.0 for o in (cl.obs[i] for i in (oidx or range(n)))])
